@@ -130,3 +130,15 @@ func VerifMaxRound(mv MessageValidator, role spectypes.BeaconRole) uint64 {
 	return uint64(mv.(*messageValidator).maxRound(role))
 }
 func VerifMaxDecided(n int) int { return maxDecidedCount(n) }
+
+// VerifPerIDStateSizes counts the validator's per-message-ID entries: the validation locks (one mutex per message ID, never
+// evicted) and the consensus states (one per validator key and role). C08 resource clause: a message refused because its
+// validator is unknown / not served must leave neither behind.
+func VerifPerIDStateSizes(mv MessageValidator) (locks int, index int) {
+	m := mv.(*messageValidator)
+	m.validationMutex.Lock()
+	locks = len(m.validationLocks)
+	m.validationMutex.Unlock()
+	m.index.Range(func(_, _ any) bool { index++; return true })
+	return locks, index
+}
